@@ -355,8 +355,10 @@ regress_report_step_log(struct report_context *r, const struct step *step)
 		buffer_puts(r->out, buffer_get_ptr(bf), buffer_get_len(bf));
 		return STEP_LOG_HANDLED;
 	}
-	if (rv < 0)
+	if (rv < 0) {
+		warn("%s", log_path);
 		return STEP_LOG_ERROR;
+	}
 	return STEP_LOG_UNHANDLED;
 }
 
